@@ -1619,7 +1619,11 @@ class Interp:
         if isinstance(f, VSpecFunc):
             return self.ctx.apply_spec(self, f.spec, args, node)
         if isinstance(f, VOpaque):
-            return self.opaque_call('call:' + (f.label or 'callable'), [f] + args, kwargs, node, {'raises': True})
+            nm = 'call:' + (f.label or 'callable')
+            d = dict(self.ctx.registry.externs.get(nm) or {})      # extern("call:<label>", returns=...) refines what the call returns
+            d.pop('event', None)
+            d.setdefault('raises', True)
+            return self.opaque_call(nm, [f] + args, kwargs, node, d)
         if isinstance(f, VNone):
             self.require(False, 'call-of-None', node, exc='TypeError')
             raise PyExc(VExc('TypeError', origin='NoneType not callable'))
@@ -1684,6 +1688,10 @@ class Interp:
             recv = [f.self_val] if f.self_val is not None else []
             d2_ = dict(d)
             d2_['__callee__'] = fi.qualname
+            if d.get('recv_as_arg') and recv:
+                # opaque(..., recv_as_arg=True): the event has the layout of an extern method event ("*.m": receiver is argument 0),
+                # so that calls resolved to this class and calls on objects of unknown class share one event shape
+                return self.opaque_call(d.get('event', fi.name), recv + list(args), kwargs, node, d2_)
             return self.opaque_call(d.get('event', fi.name), args, kwargs, node, d2_, recv=recv)
         if mode == 'inline':
             self.inlined_used.add(key)
